@@ -33,6 +33,9 @@ class C14(EngineBase):
                               ["Z2Z2"], ["U1U1"], ["Z2", "U1"]]),
             "n_macro": r.choice([8, 12, 18]) if tier == "quick" else r.choice([12, 20, 30]),
             "wseed": r.randrange(2**31),
+            "max_charges": r.choice([3, 3, 3, 4, 5]),
+            "max_size": r.choice([3, 3, 3, 4]),
+            "p_ctor_phases": r.choice([0.0, 0.0, 0.15]),
             # thorough: some calls are crashed at *every* line, not one
             "p_all_lines": (0.15 if tier == "thorough" and crash_batch else 0.0),
         }
@@ -50,7 +53,9 @@ class C14(EngineBase):
         cfg = st.config
         if st.ctx is None:
             st.ctx = ops.Ctx(rng, kinds=tuple(cfg["kinds"]), syms=tuple(cfg["syms"]),
-                             p_inplace=cfg["p_inplace"], sparsity=cfg["sparsity"])
+                             p_inplace=cfg["p_inplace"], sparsity=cfg["sparsity"],
+                             max_charges=cfg.get("max_charges", 3), max_size=cfg.get("max_size", 3))
+            st.ctx.p_ctor_phases = cfg.get("p_ctor_phases", 0.0)
             import random
             st.ctx.weights = ops.swarm_weights(random.Random(cfg["wseed"]))
         steps = []
